@@ -81,3 +81,20 @@ Proof.
               (conj TieNodes.combiner_slot_before_reserve_src TieNodes.splitter_slot_before_get_src)).
 Qed.
 Print Assumptions C08_slot_order_regenerated.
+
+(* the machine worker's first block (it runs in the instant in which the item was pulled; theories/Factory/FactoryBlocks.v,
+   every world): it stamps the start of processing with the clock, arms exactly one timer -- due exactly the drawn
+   processing delay later --, waits on it, and touches no edge, item or trace entry *)
+From FV Require FactoryBlocks.
+Theorem C08_worker_arms_the_drawn_delay :
+  forall w p,
+  ppc (me w p) = 0%nat -> (0 <= pdl (me w p))%Z -> (p < length (wprocs w))%nat ->
+  let r := worker_block w p in let w' := fst r in
+  wedges w' = wedges w /\ witems w' = witems w /\ wlog w' = wlog w /\
+  pt0 (me w' p) = wnow w /\ ppc (me w' p) = 1%nat /\
+  exists t, snd r = YEvent t /\ t = length (evs (wk w)) /\
+    e_trig (get_ev (wk w') t) = true /\
+    In {| q_time := (wnow w + pdl (me w p))%Z; q_prio := NORMAL; q_seq := seq (wk w); q_ev := t |} (queue (wk w')) /\
+    length (queue (wk w')) = S (length (queue (wk w))).
+Proof. exact FactoryBlocks.worker_arms_the_drawn_delay. Qed.
+Print Assumptions C08_worker_arms_the_drawn_delay.
